@@ -171,7 +171,8 @@ class MonoTimer(Timer):
         """remaining time property getter,
         Returns remaining time in seconds (fractional) before ._stop.
         """
-        return (self._stop - self.latest)
+        latest = self.latest  # read first since may retrograde ._stop
+        return (self._stop - latest)
 
 
     @property
